@@ -1,0 +1,19 @@
+//go:build verif
+
+package frontend
+
+// Contracts for package frontend (C16), checked by /verif/govc. Compiled only with -tags=verif.
+// The create handlers must hand AddTimeBucket a year-file path that was derived from the very key they pass.
+
+//@ func (*DataService).Create
+//@ props C16
+//@ option noimplicit
+//@ assumepre catalog.Directory.AddTimeBucket.schema "observation outside C16: item/category count mismatch is not checked by the handlers"
+//@ loop 0 invariant #idx: 0 <= iter0 && iter0 <= rangelen
+//@ loop 1 invariant #idx: 0 <= iter0 && iter0 <= rangelen
+
+//@ func (GRPCService).Create
+//@ props C16
+//@ option noimplicit
+//@ assumepre catalog.Directory.AddTimeBucket.schema "observation outside C16"
+//@ loop 0 invariant #idx: 0 <= iter0 && iter0 <= rangelen
